@@ -21,16 +21,30 @@
 (* Every action logs what an observer of the table and of the OpenFlow      *)
 (* channel must see (`last`, appended to `hist` for export to the harness). *)
 (*                                                                          *)
-(* Matches.  A match is a record [ip, dd, nl, nv, ex]:                      *)
+(* Matches.  A match is a record [ip, dd, sl, sv, nl, nv, ex]:              *)
 (*   ip  in_port (0 = wildcarded)       dd  dl_dst symbol (0 = wildcarded)  *)
 (*   nl/nv  nw_dst prefix: length and the value of its first nl bits        *)
 (*          (nl = 0: wildcarded; a match with nl > 0 names dl_type = IPv4   *)
 (*          on the wire, as the standard requires for nw_dst to count)      *)
+(*   sl/sv  nw_src prefix, same encoding                                    *)
 (*   ex  1 = no wildcard at all: every other header field is pinned to the  *)
 (*          value it has in the reference frame (frames with ref = 1)       *)
 (* Three dimensions are enough to have subsumption, disjointness and        *)
 (* overlap WITHOUT subsumption (in_port=1 versus dl_dst=A), and real prefix *)
-(* arithmetic on nw_dst.                                                    *)
+(* arithmetic on nw_dst; the second prefix field gives the same three       *)
+(* relations between prefixes of DIFFERENT fields (src 20.1/16 + dst 10/8   *)
+(* versus src 20/8 + dst 10.1/16).                                          *)
+(*                                                                          *)
+(* Spelling.  A match record is the MEANING of an ofp_match.  The wire form *)
+(* has bits the standard tells the switch to ignore: address bits beyond a  *)
+(* prefix length, the value of a wildcarded field, wildcard counts 33..63   *)
+(* (= 32).  Every FLOW_MOD and statistics request carries `sp`, a bit set   *)
+(* saying which of those don't-care bits are non-zero in the message        *)
+(* (1: nw_dst bits beyond the prefix, 2: nw_src bits beyond the prefix,     *)
+(* 4: values of wildcarded fields / counts above 32).  NOTHING below reads  *)
+(* sp: two spellings of a match are the same match - they address, replace, *)
+(* overlap and select exactly alike.  The harness concretises it, so the    *)
+(* exported behaviours and the validated traces quantify over spellings.    *)
 (*                                                                          *)
 (* Clock model.  Real time is continuous, the model counts whole units.     *)
 (* The harness realises Tick(d) as d units plus (Late) or minus (~Late) a   *)
@@ -44,9 +58,9 @@
 EXTENDS Naturals, Sequences, FiniteSets, FiniteSetsExt, TLC, Json
 
 CONSTANTS Mods,        \* alphabet of FLOW_MOD messages (see IsMod)
-          Pkts,        \* alphabet of frames [ip, dd, na, ref, len]
+          Pkts,        \* alphabet of frames [ip, dd, ns, na, ref, len]
           Ticks,       \* clock advances, in whole units
-          Queries,     \* statistics requests [m, outp]
+          Queries,     \* statistics requests [m, outp, sp]
           MaxEntries,  \* capacity of the table (switch max_entries)
           MaxPk,       \* model bound: per-entry packet count
           Cap,         \* saturation value of the clocks
@@ -71,37 +85,48 @@ Lesser(a, b) == IF a < b THEN a ELSE b
 (* Match algebra                                                            *)
 
 FieldCovers(x, y) == x = 0 \/ x = y
+\* prefixes (length, value of the first `length` bits); length 0 = wildcarded
 \* (the guards keep 2^32 out of TLC's 32-bit integers)
-NwCovers(a, b) == a.nl = 0 \/ (a.nl <= b.nl /\ b.nv \div (2 ^ (b.nl - a.nl)) = a.nv)
+PfxCovers(al, av, bl, bv) == al = 0 \/ (al <= bl /\ bv \div (2 ^ (bl - al)) = av)
+PfxMeets(al, av, bl, bv)  == LET l == Lesser(al, bl) IN
+                             l = 0 \/ av \div (2 ^ (al - l)) = bv \div (2 ^ (bl - l))
+PfxHas(l, v, addr)        == l = 0 \/ addr \div (2 ^ (32 - l)) = v
+NwCovers(a, b)  == PfxCovers(a.nl, a.nv, b.nl, b.nv)
+SrcCovers(a, b) == PfxCovers(a.sl, a.sv, b.sl, b.sv)
 \* a subsumes b: every frame b matches is matched by a, and a is at least as wide
 Covers(a, b) == /\ FieldCovers(a.ip, b.ip)
                 /\ FieldCovers(a.dd, b.dd)
                 /\ NwCovers(a, b)
+                /\ SrcCovers(a, b)
                 /\ (a.ex = 1 => b.ex = 1)
 
 FieldMeets(x, y) == x = 0 \/ y = 0 \/ x = y
-NwMeets(a, b) == LET l == Lesser(a.nl, b.nl) IN
-                 l = 0 \/ a.nv \div (2 ^ (a.nl - l)) = b.nv \div (2 ^ (b.nl - l))
+NwMeets(a, b)  == PfxMeets(a.nl, a.nv, b.nl, b.nv)
+SrcMeets(a, b) == PfxMeets(a.sl, a.sv, b.sl, b.sv)
 \* a single frame may match both
-Overlap(a, b) == FieldMeets(a.ip, b.ip) /\ FieldMeets(a.dd, b.dd) /\ NwMeets(a, b)
+Overlap(a, b) == /\ FieldMeets(a.ip, b.ip) /\ FieldMeets(a.dd, b.dd)
+                 /\ NwMeets(a, b) /\ SrcMeets(a, b)
 
 PktMatches(m, x) == /\ m.ip = 0 \/ m.ip = x.ip
                     /\ m.dd = 0 \/ m.dd = x.dd
-                    /\ m.nl = 0 \/ x.na \div (2 ^ (32 - m.nl)) = m.nv
+                    /\ PfxHas(m.nl, m.nv, x.na)
+                    /\ PfxHas(m.sl, m.sv, x.ns)
                     /\ m.ex = 1 => x.ref = 1
 
 IsMatch(m) == /\ m.ip \in 0..2 /\ m.dd \in 0..2 /\ m.nl \in {0, 8, 16, 32}
               /\ m.nv \in Nat /\ (m.nl = 32 \/ m.nv < 2 ^ m.nl) /\ m.ex \in {0, 1}
+              /\ m.sl \in {0, 8, 16, 32} /\ m.sv \in Nat /\ (m.sl = 32 \/ m.sv < 2 ^ m.sl)
+Spellings == 0..7
 IsMod(f) == /\ f.cmd \in Commands /\ IsMatch(f.m) /\ f.prio \in 0..65535
             /\ f.acts \in ActSyms /\ f.idle \in 0..(Cap - 1) /\ f.hard \in 0..(Cap - 1)
             /\ f.rem \in {0, 1} /\ f.chk \in {0, 1} /\ f.em \in {0, 1}
-            /\ f.outp \in {0, 3, 4, 9} /\ f.cookie \in 1..3
-IsPkt(x) == x.ip \in 1..2 /\ x.dd \in 1..2 /\ x.na \in Nat /\ x.ref \in {0, 1}
-            /\ x.len \in Nat
+            /\ f.outp \in {0, 3, 4, 9} /\ f.cookie \in 1..3 /\ f.sp \in Spellings
+IsPkt(x) == x.ip \in 1..2 /\ x.dd \in 1..2 /\ x.na \in Nat /\ x.ns \in Nat
+            /\ x.ref \in {0, 1} /\ x.len \in Nat
 
 ASSUME /\ \A f \in Mods : IsMod(f)
        /\ \A x \in Pkts : IsPkt(x)
-       /\ \A q \in Queries : IsMatch(q.m) /\ q.outp \in {0, 3, 4, 9}
+       /\ \A q \in Queries : IsMatch(q.m) /\ q.outp \in {0, 3, 4, 9} /\ q.sp \in Spellings
        /\ Ticks \subseteq 1..Cap /\ MaxEntries \in Nat /\ MaxPk \in Nat
        /\ Late \in BOOLEAN /\ AllowTies \in BOOLEAN
 
